@@ -1,5 +1,5 @@
 CFG = dict(
-    id="C15", props="Props/C15.v", harness="c15", shims=["c2--c15.go"],
+    id="C15", props="Props/C15.v", harness="c15", shims=["c2--c15.go"], tags="verif,tiny",
     trusted_base=[
         "std++ gmap (axiom-free) for the session table and the proxy's client table",
         "the harness observes a session being 'touched' through Session.RemoteAddr(), its key material through keys.Public, its queue through the "
@@ -7,6 +7,8 @@ CFG = dict(
         "Server, Listener, Proxy and Session values are constructed by the shim without sockets; Listener.talk/talkSub, Server.Session/Sessions/Remove, "
         "Session.Send, Proxy.talk/talkSub/accept are the real functions; Channel routing is driven through the real conn.channelRead -> conn.resolve(tags, true) / "
         "conn.stop on a fake read-only net.Conn (channelWrite not started), Session.chn is read by the shim",
+        "forwarding is driven through the real Proxy.talk -> notify -> Session.write -> Session.next on a client-side Session and the real Listener.talk "
+        "(Marshal/Unmarshal in between), built with -tags verif,tiny (limits.Frag = 262144)",
         "key material used by the harness is never a valid curve point (KeyPair.Sync fails, IsSynced stays false): receiveSingle's keySessionSync therefore "
         "always reads the packet's key into keys.Public, which is what the model does for SvComplete+FlagCrypt",
     ],
@@ -25,7 +27,8 @@ CFG = dict(
                "unregistered device gets a re-registration request and changes nothing; outbound packets name a device the incoming packet named or tagged; Server.Session "
                "returns the device's own session or nothing (and finds every registered device); Remove forgets; the same for the proxy tables; with Channels, over all "
                "histories of Channel packets with any tag list (the empty one included) a session is routed only into the Channel of a host whose LAST tag list names it, "
-               "and a queued packet lands in its device's own queue or in that host's queue. Registration itself is proved "
+               "and a queued packet lands in its device's own queue or in that host's queue; a proxied client's packet forwarded by its proxy host, whole or cut into "
+               "fragments by Session.write, names the client in every piece and is handled only in the client's session. Registration itself is proved "
                "under hash-injectivity and refuted without it with a real colliding pair (constant checked by vm_compute and against ID.Hash on every run). The code as it "
                "was before the four fix: commits is the chk=false instance of the same definitions; its misbehaviour is stated as C15_old_code_refuted. "
                "The model is tied to /repo by generated histories run through the real functions and through the model inside Coq.",
